@@ -211,7 +211,7 @@ def monitor_robust(lines, crash):
     return None
 
 
-def expected_record_line(prio_names, prio, sec, nsec, fn, line, tags, text):
+def expected_record_line(prio_names, prio, fn, line, tags, sec, nsec, text):
     name = prio_names.get(prio if prio <= 8 else 8, "?")
     # the printer strips trailing newlines of the message (but never its first byte)
     t = text
